@@ -40,8 +40,8 @@ pub struct Src<'a, E> {
     _p: PhantomData<E>,
 }
 
-pub const N_HINT_POLICIES: u32 = 8;
-pub const HINT_NAMES: [&str; 8] = [
+pub const N_HINT_POLICIES: u32 = 9;
+pub const HINT_NAMES: [&str; 9] = [
     "exact",
     "absent",
     "loose-truthful",
@@ -50,12 +50,15 @@ pub const HINT_NAMES: [&str; 8] = [
     "zero-to-max",
     "lower-only",
     "claims-exactly-N",
+    "self-contradictory",
 ];
 
 /// `r` = items left before the first None, `n` = the array length the collector wants,
 /// `total` = items the source had at the start
 pub fn hint(policy: u32, x: usize, r: usize, n: usize, total: usize) -> (usize, Option<usize>) {
     match policy % N_HINT_POLICIES {
+        // truthful lower bound, upper bound below it (a hint that contradicts itself)
+        8 => (r, Some(r.saturating_sub(1 + x))),
         // claims exactly N whatever it holds (an ExactSizeIterator-looking liar): N minus what it already gave
         7 => {
             let given = total - r.min(total);
